@@ -70,6 +70,33 @@ def generate(seed, tier, focus="frame"):
             m = fmsg(g)
             cutp = g.rint(1, len(m) - 1)
             lines.append("frame run %s %s" % (hx(m + m[:cutp]), g.pick(["-", "3", "1,1,1,1,1,1,1,1"])))
+    elif focus == "udpwire":
+        # the real UDP transport on a loopback socket: datagrams of very different sizes one after the other
+        # (each is followed by a short sentinel datagram inside the harness), cut and over-declared ones in between
+        import os, time
+        port = 24000 + ((int(time.time()) * 7 + os.getpid()) % 20000)
+        lines.append("udpwire new %d" % port)
+        for i in range(120 if tier == "quick" else 3000):
+            k = g.rint(0, 5)
+            m = fmsg(g, big=g.chance(0.3))
+            exp = None
+            if k == 0:
+                d = m[:g.rint(1, len(m) - 1)]
+            elif k == 1:
+                d = g.rbytes(1, 40)
+            elif k == 2:
+                body = g.rbytes(1, 10)
+                d = ("MESSAGE sip:s SIP/2.0\r\nVia: SIP/2.0/UDP h\r\nContent-Length: %d\r\n\r\n" % (len(body) + g.rint(1, 30))).encode() + body
+                exp = "rejected"
+            else:
+                d = m
+            if len(d) > 60000:
+                d = d[:60000]
+            e = (" # spec=C10 eq " + exp) if exp else ""
+            if k >= 3 and len(d) == len(m):
+                e += " # spec=C10 accepted"
+            lines.append("udpwire send %s # spec=C10 selfrelay1%s" % (hx(d), e))
+            g.count("udpwire_kind_%d" % min(k, 3))
     else:
         for i in range(400 if tier == "quick" else 8000):
             m = fmsg(g, big=g.chance(0.1))
